@@ -31,6 +31,7 @@ type c10Case struct {
 	Header  bool    `json:"header"`
 	// ZeroLater: the second value of the files after the first is 0 (a hole in an earlier file followed by a stored 0)
 	ZeroLater bool `json:"zero_in_later_files,omitempty"`
+	Laps      bool `json:"points_of_other_laps,omitempty"`
 }
 
 func init() {
@@ -119,6 +120,9 @@ func c10World(root string, l wsp.Layout, k c10Case) (x [][]wsp.Ring, y [][]wsp.R
 		ch := c10Choices(f, k.Base)
 		if k.ZeroLater && f > 0 && len(ch) == 3 {
 			ch[2].V = 0
+		}
+		if k.Laps && len(ch) == 3 { // the second choice is a point of another lap of the ring: not a value of this slot
+			ch[2] = SlotChoice{Kind: []string{"newer", "stale"}[f%2], V: 9}
 		}
 		r := contentByCode(l, k.Now, ch, code)
 		(&BFile{L: l, Rings: r, Base: basePicks(code, len(l.Archs))}).Write(filepath.Join(root, "it", "x", names[f]))
@@ -301,6 +305,9 @@ func runC10(c *fw.Ctx) {
 				}
 				one(c10Case{Layout: "L4", Now: now, Codes: codes, Base: base, Mode: "sum", Archive: arch, From: w[0], Until: w[1], Header: (idx+wi)%2 == 0})
 			}
+		}
+		if base == 3 && len(codes) == 2 && idx%3 == 1 {
+			one(c10Case{Layout: "L4", Now: now, Codes: codes, Base: base, Mode: "sum", Archive: -1, Laps: true})
 		}
 		if base == 3 && len(codes) == 2 && idx%3 == 0 {
 			one(c10Case{Layout: "L4", Now: now, Codes: codes, Base: base, Mode: "sum", Archive: -1, ZeroLater: true})
